@@ -474,6 +474,7 @@ public:
                                         __TBB_FLOW_GRAPH_METAINFO_ARG(const message_metainfo& metainfo))
     {
         output_type v = apply_body_impl(i);
+        __TBB_VERIF_POINT(vp_fg_forwarder, this, 1);
         graph_task* postponed_task = nullptr;
         if( base_type::my_max_concurrency != 0 ) {
             postponed_task = base_type::try_get_postponed_task(i);
@@ -604,6 +605,7 @@ public:
         fgt_begin_body( my_body );
         (*my_body)(i, my_output_ports);
         fgt_end_body( my_body );
+        __TBB_VERIF_POINT(vp_fg_forwarder, this, 1);
         graph_task* ttask = nullptr;
         if(base_type::my_max_concurrency != 0) {
             ttask = base_type::try_get_postponed_task(i);
